@@ -19,6 +19,9 @@ Definition is_ascii (b : ascii) : bool := (byte_n b <? 128)%N.
 Inductive outcome (A : Type) := Panic | OutOfFuel | Ok (a : A).
 Arguments Panic {A}. Arguments OutOfFuel {A}. Arguments Ok {A} _.
 
+(* the property's predicate on an observed outcome (run-time oracle): the function returned *)
+Definition returned {A} (o : outcome A) : bool := match o with Ok _ => true | _ => false end.
+
 Definition bind {A B} (x : outcome A) (f : A -> outcome B) : outcome B :=
   match x with Panic => Panic | OutOfFuel => OutOfFuel | Ok a => f a end.
 Notation "'do' x <- e ; k" := (bind e (fun x => k)) (at level 200, x name, e at level 100, k at level 200).
